@@ -191,7 +191,8 @@ func (cs *clientState) releaseCapture() {
 
 // Tells a blocking command (if any) to end with a timeout or error.
 // For a timeout, pass reason as an empty string and isError false.
-func (cs *clientState) unblock(reason string, isError bool) {
+// Returns true when the request was posted to a client that is blocked.
+func (cs *clientState) unblock(reason string, isError bool) (posted bool) {
 	us := time.Microsecond
 
 	for {
@@ -203,6 +204,7 @@ func (cs *clientState) unblock(reason string, isError bool) {
 				// only one unblock is posted per capture to prevent
 				// getting stuck here
 				cs.unblockCh <- unblockReason{reason: reason, isError: isError}
+				posted = true
 			}
 		}
 		atomic.SwapInt32(&cs.blocked, locked)
